@@ -15,7 +15,7 @@ import (
 func init() {
 	register(&Spec{ID: "C13", Title: "Cancelled or closed channels never block and never deliver", Run: runC13,
 		Meta: core.Meta{
-			Explanation: "Structural conditions of non-blocking behaviour; durations are not decided. R13.1: every blocking receive on Channel.packageCh, Channel.errCh or Conn.errCh is a select that also receives from Done() of the caller's context and of the connection context, each branch returning an error that wraps the respective Err() with %w; plain receives occur only after close() of the same channel (the drain in Close). R13.2 (E-LOCK, blocking-under-lock): every send on those channels is examined — a bare send (no select with an escape) executed while the channel's RWMutex is held blocks Close (which needs the write lock); a bare send on Conn.errCh parks the reader goroutine beyond Conn.Close. Bare sends on the reader goroutine's path (functions statically reachable from (*Conn).ReadFrom) are reported as one obligation per queue, bare sends anywhere else one per function. R13.3: every *Channel method that touches the queues or Go channels tests `closed` under the channel lock first (closed edge returns ErrChannelClosed or returns without effect); Close sets closed under the write lock, removes the channel from the connection, and closes both Go channels before draining them. R13.4: in sendPackets every sendPacket call lies in the default arm of a non-blocking select over the caller's and the connection's Done(). R13.5: every path through Conn.Close calls ctxCancel() and conn.Close() and closes the snapshot of channels; Logout bounds its waits with context.WithTimeout. R13.6: the reader loop tests the connection context at its head with an exit and passes that context to Packet.ReadFrom. R13.7 (E-LOCK): no call (including deferred calls, replayed LIFO at each exit) re-acquires a sync.RWMutex the caller already holds — recursive read locking deadlocks against a pending writer. R13.8: in every *Channel method with a ctx parameter, every context argument passed on derives from that parameter.",
+			Explanation: "Structural conditions of non-blocking behaviour; durations are not decided. R13.1: every blocking receive on Channel.packageCh, Channel.errCh or Conn.errCh is a select that also receives from Done() of the caller's context and of the connection context, each branch returning an error that wraps the respective Err() with %w; plain receives occur only after close() of the same channel (the drain in Close). R13.2 (E-LOCK, blocking-under-lock): every send on those channels is examined — a bare send (no select with an escape) executed while the channel's RWMutex is held blocks Close (which needs the write lock); a bare send on Conn.errCh parks the reader goroutine beyond Conn.Close. Bare sends on the reader goroutine's path (functions statically reachable from (*Conn).ReadFrom) are reported as one obligation per queue, bare sends anywhere else one per function. R13.3: every *Channel method that touches the queues or Go channels tests `closed` under the channel lock first (closed edge returns ErrChannelClosed or returns without effect); Close sets closed under the write lock, removes the channel from the connection, and closes both Go channels before draining them. R13.4: in sendPackets every sendPacket call lies in the default arm of a non-blocking select over the caller's and the connection's Done(). R13.5: every path through Conn.Close calls ctxCancel() and conn.Close() and closes the snapshot of channels; Logout bounds its waits with context.WithTimeout. R13.6: the reader loop tests the connection context at its head with an exit and passes that context to Packet.ReadFrom. R13.7 (E-LOCK): no call (including deferred calls, replayed LIFO at each exit) re-acquires a sync.RWMutex the caller already holds — recursive read locking deadlocks against a pending writer. R13.9 (E-LOCK): wherever Conn.tdsChannelsLock is held (read or write) no channel send, blocking receive/select or call that transitively contains one is executed — a reader parked on one channel's full queue would otherwise hold the connection-wide lock that Close and NewChannel of every other channel need. R13.2 also covers every other send in package tds: it is accepted only as the single send on a buffered channel made by the same call (NextPackage's no-wait slot). R13.8: in every *Channel method with a ctx parameter, every context argument passed on derives from that parameter.",
 			NotDecided:  "Latencies, goroutine counts and races between cancel and delivery are not decided; schedules are not explored.",
 			Assumptions: []string{"sync.RWMutex blocks new readers behind a pending writer (documented)", "select semantics of the Go specification"},
 		}})
@@ -32,6 +32,8 @@ func runC13(r *core.Run) {
 	r.Rule("R13.6", "reader loop is bound to the connection context", 2, false)
 	r.Rule("R13.7", "no re-acquisition of a held RWMutex through a callee (incl. deferred calls)", 40, true)
 	r.Rule("R13.8", "context arguments derive from the caller's ctx", 7, true)
+	r.Rule("R13.9", "the connection's channel-map lock is never held across an operation that can block on a queue", 1, false)
+	defer c13NoBlockUnderMapLock(r, la)
 
 	designated := map[*types.Var]string{
 		p.Field("tds", "Channel", "packageCh"): "Channel.packageCh",
@@ -45,21 +47,7 @@ func runC13(r *core.Run) {
 	}
 
 	// the reader goroutine's code: everything statically reachable from (*Conn).ReadFrom
-	readerPath := map[*ssa.Function]bool{}
-	var mark func(fn *ssa.Function)
-	mark = func(fn *ssa.Function) {
-		if fn == nil || readerPath[fn] || !core.InModule(fn) {
-			return
-		}
-		readerPath[fn] = true
-		for _, c := range core.Calls(fn) {
-			mark(core.StaticCallee(c))
-		}
-		for _, a := range fn.AnonFuncs {
-			mark(a)
-		}
-	}
-	mark(p.Func("tds", "Conn", "ReadFrom"))
+	readerPath := readerPathFuncs(p)
 	readerSends := map[*types.Var][]*ssa.Send{}
 	defer func() {
 		for f, name := range designated {
@@ -83,6 +71,28 @@ func runC13(r *core.Run) {
 				case *ssa.Send:
 					f, ok := chanField(x.Chan)
 					if !ok {
+						// any other send: accepted only on a channel made by this very call with room for it
+						// (cannot block, and nothing is left behind for a later call)
+						mk, isMk := x.Chan.(*ssa.MakeChan)
+						key := core.FuncName(fn) + ": send on " + core.KExpr(x.Chan)
+						if isMk {
+							key = core.FuncName(fn) + ": send on a channel made by this call"
+						}
+						capOK := false
+						if isMk {
+							if k, isC := core.ConstInt64(mk.Size); isC && k >= 1 {
+								capOK = true
+							}
+						}
+						_, inLoop := core.InnermostLoop(b)
+						switch {
+						case !isMk:
+							r.Bad("R13.2", key, x.Pos(), "bare send on a channel that outlives the call ("+core.Expr(x.Chan)+"): it blocks when the slot is still occupied, and a token left behind by one call is received by a later one")
+						case !capOK || inLoop != nil:
+							r.Bad("R13.2", key, x.Pos(), "bare send on a local channel without guaranteed room (unbuffered, or sent to repeatedly)")
+						default:
+							r.OK("R13.2", key, x.Pos(), "one send on a buffered channel created by this call")
+						}
 						continue
 					}
 					ls := la.At(x)
@@ -604,4 +614,118 @@ func c13Reacquire(r *core.Run, la *lockAnalysis) {
 			}
 		}
 	}
+}
+
+// c13NoBlockUnderMapLock: R13.9.
+func c13NoBlockUnderMapLock(r *core.Run, la *lockAnalysis) {
+	// functions that can block on a Go channel (send, blocking receive or blocking select), transitively
+	blocks := map[*ssa.Function]string{}
+	direct := func(fn *ssa.Function) string {
+		for _, b := range fn.Blocks {
+			for _, in := range b.Instrs {
+				switch x := in.(type) {
+				case *ssa.Send:
+					return "send at " + r.Prog.Pos(x.Pos())
+				case *ssa.Select:
+					if x.Blocking {
+						return "blocking select at " + r.Prog.Pos(x.Pos())
+					}
+				case *ssa.UnOp:
+					if x.Op == token.ARROW {
+						return "receive at " + r.Prog.Pos(x.Pos())
+					}
+				}
+			}
+		}
+		return ""
+	}
+	for _, fn := range la.funcs {
+		if w := direct(fn); w != "" {
+			blocks[fn] = w
+		}
+	}
+	for changed := true; changed; {
+		changed = false
+		for _, fn := range la.funcs {
+			if blocks[fn] != "" {
+				continue
+			}
+			for _, c := range core.Calls(fn) {
+				if _, isGo := c.(*ssa.Go); isGo {
+					continue
+				}
+				if f := core.StaticCallee(c); f != nil && blocks[f] != "" {
+					blocks[fn] = "calls " + core.FuncName(f) + " (" + blocks[f] + ")"
+					changed = true
+					break
+				}
+			}
+		}
+	}
+	heldMap := func(ls lockset) string {
+		for k := range ls {
+			if strings.HasSuffix(k, ".tdsChannelsLock") {
+				return k
+			}
+		}
+		return ""
+	}
+	regions := 0
+	for _, fn := range la.funcs {
+		for _, b := range fn.Blocks {
+			for _, in := range b.Instrs {
+				ls := la.At(in)
+				k := heldMap(ls)
+				if k == "" {
+					continue
+				}
+				if c, ok := in.(ssa.CallInstruction); ok {
+					if op, _, isLock := lockOp(c); isLock && (op == "Unlock" || op == "RUnlock") {
+						regions++
+					}
+				}
+				what := ""
+				switch x := in.(type) {
+				case *ssa.Send:
+					what = "a channel send"
+				case *ssa.Select:
+					if x.Blocking {
+						what = "a blocking select"
+					}
+				case *ssa.UnOp:
+					if x.Op == token.ARROW {
+						what = "a channel receive"
+					}
+				case *ssa.Call:
+					if f := core.StaticCallee(x); f != nil && blocks[f] != "" {
+						what = "a call of " + core.FuncName(f) + ", which " + blocks[f]
+					}
+				}
+				if what != "" {
+					r.Bad("R13.9", core.FuncName(fn)+": blocking operation under Conn.tdsChannelsLock", in.Pos(), what+" is executed while "+k+" is held: when the queue is full the goroutine parks holding the connection-wide lock, and Close/NewChannel of every other channel (which need the write lock) hang")
+				}
+			}
+		}
+	}
+	r.Check(regions >= 3, "R13.9", "critical sections of Conn.tdsChannelsLock are free of blocking operations", token.NoPos, fmt.Sprintf("%d critical sections inspected", regions), "fewer than three critical sections of tdsChannelsLock seen: the rule does not see the code")
+}
+
+// readerPathFuncs: the reader goroutine's code — everything statically reachable from (*Conn).ReadFrom.
+func readerPathFuncs(p *core.Prog) map[*ssa.Function]bool {
+	readerPath := map[*ssa.Function]bool{}
+	var mark func(fn *ssa.Function)
+	mark = func(fn *ssa.Function) {
+		if fn == nil || readerPath[fn] || !core.InModule(fn) {
+			return
+		}
+		readerPath[fn] = true
+		for _, c := range core.Calls(fn) {
+			mark(core.StaticCallee(c))
+		}
+		for _, a := range fn.AnonFuncs {
+			mark(a)
+		}
+	}
+	mark(p.Func("tds", "Conn", "ReadFrom"))
+	return readerPath
 }
